@@ -11,6 +11,7 @@ package c03
 import (
 	"fmt"
 	"go/ast"
+	"go/constant"
 	"go/token"
 	"go/types"
 	"sort"
@@ -242,7 +243,7 @@ func (x *XGraph) Path(q XQuery) []string {
 			if q.Avoid != nil && q.Avoid(xn) {
 				cut = true
 			}
-			env = env.kill(c.Info, n)
+			env = env.kill(c.Info, n).assign(trk, c, n)
 		}
 		if cut || entered {
 			continue
@@ -427,6 +428,111 @@ func (e xenv) kill(info *types.Info, n ast.Node) xenv {
 	return out
 }
 
+// tracked: obj is a local (not a field, not package level) whose address is never taken in its scope.
+func (t *xtracker) tracked(c *XCtx, obj types.Object) bool {
+	v, isVar := obj.(*types.Var)
+	if !isVar || v.IsField() || v.Pkg() == nil || v.Parent() == v.Pkg().Scope() {
+		return false
+	}
+	taken, known := t.addr[obj]
+	if !known {
+		if c.Scope != nil {
+			core.InspectAll(c.Scope, func(m ast.Node) bool {
+				if u, ok := m.(*ast.UnaryExpr); ok && u.Op == token.AND && IsObj(c.Info, obj)(u.X) {
+					taken = true
+				}
+				// written inside a function literal that does not declare it: the write may happen at
+				// any time the literal runs
+				if fl, ok := m.(*ast.FuncLit); ok && !(fl.Pos() <= obj.Pos() && obj.Pos() < fl.End()) {
+					ast.Inspect(fl.Body, func(k ast.Node) bool {
+						switch y := k.(type) {
+						case *ast.AssignStmt:
+							for _, l := range y.Lhs {
+								if IsObj(c.Info, obj)(l) {
+									taken = true
+								}
+							}
+						case *ast.IncDecStmt:
+							if IsObj(c.Info, obj)(y.X) {
+								taken = true
+							}
+						}
+						return true
+					})
+				}
+				return true
+			})
+		}
+		t.addr[obj] = taken
+	}
+	return !taken
+}
+
+// assign records the constants the statement n gives to bool / nil-able locals:
+// `v = true`, `v := false`, `err = nil`, `var v bool` (false), `var err error` (nil).
+func (e xenv) assign(t *xtracker, c *XCtx, n ast.Node) xenv {
+	out := e
+	set := func(obj types.Object, val bool) {
+		if obj == nil || !t.tracked(c, obj) || len(out) >= 4 {
+			return
+		}
+		out = append(append(xenv{}, out...), xfact{obj, val})
+	}
+	value := func(obj types.Object, rhs ast.Expr) {
+		if obj == nil {
+			return
+		}
+		isBool := false
+		if b, ok := obj.Type().Underlying().(*types.Basic); ok && b.Kind() == types.Bool {
+			isBool = true
+		}
+		switch {
+		case rhs == nil && isBool:
+			set(obj, false)
+		case rhs == nil:
+			switch obj.Type().Underlying().(type) {
+			case *types.Interface, *types.Pointer, *types.Map, *types.Slice, *types.Chan, *types.Signature:
+				set(obj, true) // zero value: nil
+			}
+		case isBool:
+			if tv, ok := c.Info.Types[rhs]; ok && tv.Value != nil && tv.Value.Kind() == constant.Bool {
+				set(obj, constant.BoolVal(tv.Value))
+			}
+		default:
+			if core.IsNil(c.Info, rhs) {
+				set(obj, true)
+			}
+		}
+	}
+	switch x := n.(type) {
+	case *ast.AssignStmt:
+		if len(x.Lhs) == len(x.Rhs) && (x.Tok == token.ASSIGN || x.Tok == token.DEFINE) {
+			for i, l := range x.Lhs {
+				if id, ok := ast.Unparen(l).(*ast.Ident); ok && id.Name != "_" {
+					value(core.ObjOf(c.Info, id), x.Rhs[i])
+				}
+			}
+		}
+	case *ast.ValueSpec:
+		for i, nm := range x.Names {
+			if i < len(x.Values) {
+				value(c.Info.Defs[nm], x.Values[i])
+			} else if len(x.Values) == 0 {
+				value(c.Info.Defs[nm], nil)
+			}
+		}
+	case *ast.DeclStmt:
+		if gd, ok := x.Decl.(*ast.GenDecl); ok {
+			for _, sp := range gd.Specs {
+				if vs, ok := sp.(*ast.ValueSpec); ok {
+					out = out.assign(t, c, vs)
+				}
+			}
+		}
+	}
+	return out
+}
+
 func (e xenv) branch(t *xtracker, c *XCtx, b *cfg.Block, si int) (xenv, bool) {
 	if len(b.Succs) != 2 || c.Fl == nil || cfgq.CondOf(b) == nil {
 		return e, true
@@ -451,23 +557,7 @@ func (e xenv) branch(t *xtracker, c *XCtx, b *cfg.Block, si int) (xenv, bool) {
 			}
 			obj, val = core.ObjOf(c.Info, id), eq
 		}
-		v, isVar := obj.(*types.Var)
-		if !isVar || v.IsField() || v.Pkg() == nil || v.Parent() == v.Pkg().Scope() {
-			continue
-		}
-		taken, known := t.addr[obj]
-		if !known {
-			if c.Scope != nil {
-				core.InspectAll(c.Scope, func(m ast.Node) bool {
-					if u, ok := m.(*ast.UnaryExpr); ok && u.Op == token.AND && IsObj(c.Info, obj)(u.X) {
-						taken = true
-					}
-					return true
-				})
-			}
-			t.addr[obj] = taken
-		}
-		if taken {
+		if !t.tracked(c, obj) {
 			continue
 		}
 		found := false
